@@ -1837,6 +1837,7 @@ size_t _GD_DoField(DIRFILE *restrict D, gd_entry_t *restrict E, int repr,
   if (~ntype & GD_COMPLEX) {
     if (repr == GD_REPR_IMAG) {
       memset(data_out, 0, GD_SIZE(return_type) * num_samp);
+      D->recurse_level--;
       dreturn("%" PRIuSIZE, num_samp);
       return num_samp;
     } else if (repr == GD_REPR_REAL)
